@@ -276,6 +276,14 @@ C16_truth(o) ==
            /\ r.edges = {d \in VEdges(o.post) : d[1] \in {r.ids[k] : k \in 1..Len(r.ids)}}
       [] OTHER -> TRUE
 
+\* an acknowledged `set` is in effect: the epic it named (the empty one included - "no
+\* epic" can be said in JSON only) and a released claim are what the next read shows
+C16_set_applied(o) ==
+  LET c == o.cmd IN
+  (c.name = "set" /\ o.exit = 0 /\ c.id \in DOMAIN o.post) =>
+     /\ ((c.epic # ABSENT /\ (c.mode = "json" \/ c.epic # "")) => o.post[c.id].epic = c.epic)
+     /\ ((c.claim = "" /\ c.mode = "json") => o.post[c.id].claim = "")
+
 \* what the read commands print is the state: list (active tasks), list --all,
 \* list --epics, list --epic E, show <id>
 C16_reads(o) ==
